@@ -104,8 +104,8 @@ extern size_t g_inline_calls;            /* handlers invoked synchronously */
 extern struct closure g_inline_last;
 extern size_t g_destroyed;               /* non-empty handlers destroyed without being invoked */
 
-#define EVENT_FRAME g_posted_count, g_posted_last, g_posted_at_Gi
-#define EVENT_FRAME_ALL g_posted_count, g_posted_last, g_posted_at_Gi, g_inline_calls, g_inline_last, g_destroyed
+#define EVENT_FRAME g_posted_count, g_posted_last, g_posted_at_Gi, g_bound_ec, g_bound_n
+#define EVENT_FRAME_ALL g_posted_count, g_posted_last, g_posted_at_Gi, g_bound_ec, g_bound_n, g_inline_calls, g_inline_last, g_destroyed
 
 static inline void post_closure(fn_t tok, int ec, size_t n, int kind)
 {
@@ -118,6 +118,12 @@ static inline void post_closure(fn_t tok, int ec, size_t n, int kind)
 static inline void post_owned(fn_t tok, int ec, size_t n) { post_closure(tok, ec, n, CK_owned); }
 /* post(ctx, closure bound to the raw object) */
 static inline void post_raw_self(fn_t cb) { post_closure(cb, 0, 0, CK_raw_self); }
+
+/* std::bind(std::move(h), ec[, n]): a closure that OWNS the handler; the bound arguments are remembered until the
+ * closure is handed to post() or to a timer wait (always the same full expression in this code base) */
+extern int g_bound_ec; extern size_t g_bound_n;
+static inline fn_t bind_owned_tok(fn_t tok, int ec, size_t n) { g_bound_ec = ec; g_bound_n = n; return tok; }
+static inline void post_tok(fn_t tok) { post_closure(tok, g_bound_ec, g_bound_n, tok >= 0x7000 ? CK_raw_self : CK_owned); }
 
 /* aux::function semantics: move-construction empties the source; operator() consumes;
  * assigning to / clearing / destroying a non-empty function destroys the handler uninvoked */
